@@ -22,7 +22,10 @@ RULE = (
     "discretized once with the real RT0 / MVEM; one evaluation = one basis field of "
     "{1,x,y,z} (global coordinates) solved with all-Dirichlet data, plus one SPD "
     "evaluation per (grid, method, K); non-trivial = non-constant field with (perturbed, "
-    "affinely mapped or embedded grid) or anisotropic K; distinct by (grid, method, K, field)"
+    "affinely mapped or embedded grid) or anisotropic K; distinct by (grid, method, K, field, pass); "
+    "scale axis {1e-3, 1e3} on one grid per dimension (plain and embedded) where, in addition, "
+    "discretize + assemble + solve are repeated on the SAME grid, tensor and data dictionary; "
+    "grid, tensor, bc and bc_values are digested before / after (purity)"
 )
 ASSUMPTIONS = [
     "all boundary faces Dirichlet with data p(x_f); constant permeability, given as a 3x3 "
@@ -39,7 +42,8 @@ BOUNDS = {
     "quick": "1-d C(1),C(2),C(3) all offset patterns of interior nodes; T(1,1), T(2,2) x 9 "
     "offsets, T(2,1); Tet(1,1,1) x 7 offsets of a corner node, Tet(2,1,1); maps {id, skew}; "
     "1-d/2-d grids embedded by {none, Rx, Rgen}; MVEM also C(2,2) x 9 offsets, C(2,2,2)@skew; "
-    "K in {I, diag(1,4,9), full, rotated}",
+    "K in {I, diag(1,4,9), full, rotated}; scale in {1e-3,1e3} with repeated discretize on "
+    "C(3)~, T(2,2)~ (plain and >Rgen), Tet(1,1,1)~, and for MVEM C(2,2)~, C(2,2,2)@skew",
     "thorough": "quick + T(3,2) x 81 offset pairs, T(3,3) x 4 nodes single offsets, "
     "Tet(1,1,1) x 27 offsets, Tet(2,2,2) x 27 offsets of the interior node, Tet(2,2,1); maps "
     "{id, shear, skew}; embeddings {none, Rz, Rx, Rgen}; MVEM also C(3,2) x 81 offset "
@@ -130,6 +134,21 @@ def cases(tier):
     for spec, ms in hexes:
         for m in ms:
             out.append({"grid": dict(spec, map=m) if m != "id" else dict(spec), "method": "mvem"})
+    # scale axis, each with a repeated discretize / assemble on the same objects
+    both = ["rt0", "mvem"]
+    fam = [
+        ({"kind": "cart", "n": [3], "pert": [[1, [1]]]}, both),
+        ({"kind": "cart", "n": [3], "pert": [[1, [1]]], "embed": "Rgen"}, both),
+        ({"kind": "tri", "n": [2, 2], "pert": [[4, [1, -1]]]}, both),
+        ({"kind": "tri", "n": [2, 2], "pert": [[4, [1, -1]]], "embed": "Rgen"}, both),
+        ({"kind": "tet", "n": [1, 1, 1], "pert": [[7, [1, -1, 1]]]}, both),
+        ({"kind": "cart", "n": [2, 2], "pert": [[4, [1, -1]]]}, ["mvem"]),
+        ({"kind": "cart", "n": [2, 2, 2], "map": "skew"}, ["mvem"]),
+    ]
+    for spec, methods in fam:
+        for sc in (1.0, 1e-3, 1e3):
+            for meth in methods:
+                out.append({"grid": dict(spec, scale=sc) if sc != 1.0 else dict(spec), "method": meth, "reuse": True})
     return out
 
 
@@ -139,7 +158,7 @@ def _projector(g):
         return np.eye(3)
     X = g.nodes - g.nodes.mean(axis=1, keepdims=True)
     U, S, _ = np.linalg.svd(X, full_matrices=False)
-    if not (S[g.dim - 1] > 1e-8 and (g.dim >= S.size or S[g.dim] < 1e-12)):
+    if not (S[g.dim - 1] > 1e-8 * S[0] and (g.dim >= S.size or S[g.dim] < 1e-12 * S[0])):
         raise RuntimeError("grid is not contained in a line / plane")
     B = U[:, : g.dim]
     return B @ B.T
@@ -160,6 +179,10 @@ def run_case(case) -> Outcome:
     gname = G.name(spec)
     plain = not spec.get("pert") and spec.get("map", "id") == "id" and spec.get("embed", "none") == "none"
     gcls = f"{d}d/{spec['kind']}" + ("" if plain else "*") + (">3d" if spec.get("embed", "none") != "none" else "") + f"/{method}"
+    if spec.get("scale", 1) != 1:
+        gcls += f"/x{spec['scale']:g}"
+    reuse = bool(case.get("reuse"))
+    xc_o, xf_o, nrm_o = g.cell_centers.copy(), g.face_centers.copy(), g.face_normals.copy()
     ones = np.ones(nc)
     fields = [("1", 1.0, np.zeros(3))] + [("xyz"[i], 0.0, np.eye(3)[i]) for i in range(3)]
 
@@ -172,45 +195,54 @@ def run_case(case) -> Outcome:
         base = {"grid": spec, "grid_name": gname, "method": method, "K": K}
         Mass = None
         for label, c0, grad in fields:
-            pc = c0 + grad @ g.cell_centers
-            pf = c0 + grad @ g.face_centers
+            pc = c0 + grad @ xc_o
+            pf = c0 + grad @ xf_o
             bcv = np.zeros(nf)
             bcv[bf] = pf[bf]
             data = pp.initialize_data({}, KW, {"second_order_tensor": perm, "bc": bc, "bc_values": bcv})
-            try:
-                disc.discretize(g, data)
-                A, b = disc.assemble_matrix_rhs(g, data)
-                x = np.linalg.solve(A.toarray(), b)
-                u = np.asarray(disc.extract_flux(g, x, data)).ravel()
-                ph = np.asarray(disc.extract_pressure(g, x, data)).ravel()
-                Mass = data[pp.DISCRETIZATION_MATRICES][KW][disc.mass_matrix_key].toarray()
-            except Exception as e:
-                out.violate(f"{method} discretize / assemble / solve raised on an admissible input",
-                            error=repr(e), field=label, **base)
-                out.ev(f"{gcls}/{kname}/exception")
-                continue
-            u_ex = -(g.face_normals.T @ (K @ (P @ grad)))
-            pmax = float(max(1.0, np.abs(pc).max(), np.abs(pf).max()))
-            tol_u = TOL * knorm * amax * (float(np.abs(grad).max()) + pmax / hmin)
-            tol_p = TOL * pmax
-            nontrivial = label != "1" and (not plain or kname != "I")
-            key = (gname, method, kname, label) if nontrivial else None
-            bad = None
-            if u.shape != (nf,) or ph.shape != (nc,) or not (np.all(np.isfinite(u)) and np.all(np.isfinite(ph))):
-                bad = ("solution has wrong shape or non-finite entries", -1, None, None, 0.0)
-            elif np.abs(u - u_ex).max() > tol_u:
-                f = int(np.argmax(np.abs(u - u_ex)))
-                bad = ("face flux differs from -n.K grad p for a linear pressure", f, u[f], u_ex[f], tol_u)
-            elif np.abs(ph - pc).max() > tol_p:
-                c = int(np.argmax(np.abs(ph - pc)))
-                bad = ("cell pressure differs from p(x_c) for a linear pressure", c, ph[c], pc[c], tol_p)
-            cls = f"{gcls}/{kname}/" + ("const" if label == "1" else "lin")
-            if bad is not None:
-                if len(out.violations) < 5:
-                    out.violate(bad[0], field=label, c0=c0, grad=grad, index=bad[1], observed=bad[2],
-                                expected=bad[3], tol=bad[4], **base)
-                cls += "/VIOLATION"
-            out.ev(cls, key)
+            dig0 = G.digest(g, perm, bc, bcv)
+            for npass in range(2 if reuse else 1):  # pass 2: same grid, tensor, bc and data dictionary
+                tag = "" if npass == 0 else "/reuse"
+                try:
+                    disc.discretize(g, data)
+                    A, b = disc.assemble_matrix_rhs(g, data)
+                    x = np.linalg.solve(A.toarray(), b)
+                    u = np.asarray(disc.extract_flux(g, x, data)).ravel()
+                    ph = np.asarray(disc.extract_pressure(g, x, data)).ravel()
+                    Mass = data[pp.DISCRETIZATION_MATRICES][KW][disc.mass_matrix_key].toarray()
+                except Exception as e:
+                    out.violate(f"{method} discretize / assemble / solve raised on an admissible input",
+                                error=repr(e), field=label, discretize_pass=npass + 1, **base)
+                    out.ev(f"{gcls}/{kname}/exception{tag}")
+                    continue
+                if G.digest(g, perm, bc, bcv) != dig0:
+                    if len(out.violations) < 5:
+                        out.violate(f"{method} discretize / assemble modified its grid / tensor / bc arguments",
+                                    field=label, discretize_pass=npass + 1, **base)
+                    out.ev(f"{gcls}/{kname}/impure/VIOLATION")
+                    dig0 = G.digest(g, perm, bc, bcv)
+                u_ex = -(nrm_o.T @ (K @ (P @ grad)))
+                pmax = float(max(1.0, np.abs(pc).max(), np.abs(pf).max()))
+                tol_u = TOL * knorm * amax * (float(np.abs(grad).max()) + pmax / hmin)
+                tol_p = TOL * pmax
+                nontrivial = label != "1" and (not plain or kname != "I")
+                key = (gname, method, kname, label, npass) if nontrivial else None
+                bad = None
+                if u.shape != (nf,) or ph.shape != (nc,) or not (np.all(np.isfinite(u)) and np.all(np.isfinite(ph))):
+                    bad = ("solution has wrong shape or non-finite entries", -1, None, None, 0.0)
+                elif np.abs(u - u_ex).max() > tol_u:
+                    f = int(np.argmax(np.abs(u - u_ex)))
+                    bad = ("face flux differs from -n.K grad p for a linear pressure", f, u[f], u_ex[f], tol_u)
+                elif np.abs(ph - pc).max() > tol_p:
+                    c = int(np.argmax(np.abs(ph - pc)))
+                    bad = ("cell pressure differs from p(x_c) for a linear pressure", c, ph[c], pc[c], tol_p)
+                cls = f"{gcls}/{kname}/" + ("const" if label == "1" else "lin") + tag
+                if bad is not None:
+                    if len(out.violations) < 5:
+                        out.violate(bad[0], field=label, c0=c0, grad=grad, index=bad[1], observed=bad[2],
+                                    expected=bad[3], tol=bad[4], discretize_pass=npass + 1, **base)
+                    cls += "/VIOLATION"
+                out.ev(cls, key)
         if Mass is not None:
             mmax = float(np.abs(Mass).max())
             asym = float(np.abs(Mass - Mass.T).max())
